@@ -335,7 +335,7 @@ func (h *harness) codecCase(label string, c codec, obj interface{}, nontrivial b
 		h.out.Case(fmt.Sprintf("mar %d - %s", c.sidx, vs), "err", nontrivial)
 	default:
 		h.out.Case(fmt.Sprintf("mar %d %s %s", c.sidx, vl.Hex(string(bs)), vs), fmt.Sprintf("ok %d", len(bs)), nontrivial)
-		h.unmCase(c, bs, nontrivial)
+		h.unmCaseOp(c, bs, fmt.Sprintf("unm %d = %s", c.sidx, shortHash(bs)), nontrivial) // "=": the bytes of the preceding mar line
 	}
 	h.out.Stats["bytes:codec"] += len(bs)
 	if !oracle {
@@ -354,7 +354,16 @@ func (h *harness) codecCase(label string, c codec, obj interface{}, nontrivial b
 	}
 }
 
+func shortHash(bs []byte) string {
+	h := sha256.Sum256(bs)
+	return hex.EncodeToString(h[:6])
+}
+
 func (h *harness) unmCase(c codec, bs []byte, nontrivial bool) {
+	h.unmCaseOp(c, bs, fmt.Sprintf("unm %d %s", c.sidx, vl.Hex(string(bs))), nontrivial)
+}
+
+func (h *harness) unmCaseOp(c codec, bs []byte, op string, nontrivial bool) {
 	var dec interface{}
 	var derr error
 	impl := ""
@@ -370,7 +379,7 @@ func (h *harness) unmCase(c codec, bs []byte, nontrivial bool) {
 			impl = "ok " + clip(dv.String())
 		}
 	}
-	h.out.Case(fmt.Sprintf("unm %d %s", c.sidx, vl.Hex(string(bs))), impl, nontrivial)
+	h.out.Case(op, impl, nontrivial)
 }
 
 // uncCase: UnmarshalRequest on bytes that may carry the trailer (FastRead, then decompress), against the
